@@ -6,9 +6,15 @@ package dnsforward
 // (direction B).
 
 import (
+	"crypto/ecdsa"
+	"crypto/elliptic"
+	crand "crypto/rand"
 	"crypto/tls"
+	"crypto/x509"
+	"crypto/x509/pkix"
 	"encoding/json"
 	"fmt"
+	"math/big"
 	"math/rand"
 	"net"
 	"net/http"
@@ -16,6 +22,7 @@ import (
 	"net/url"
 	"os"
 	"strings"
+	"sync"
 	"testing"
 	"time"
 
@@ -290,6 +297,14 @@ func (l *zzC16Live) configure(host string, strict bool) (err error) {
 
 	conf := l.srv.conf
 	conf.TLSConf = &TLSConfig{ServerName: host, StrictSNICheck: strict}
+	if host != "" {
+		// A certificate for the configured name and its immediate
+		// subdomains, so that the TLS-level half of the strict check
+		// (Server.onGetCertificate) is armed the way it is in production.
+		conf.TLSConf.Cert = zzC16Cert(host)
+		conf.TLSConf.TLSListenAddrs = []*net.TCPAddr{{IP: net.IP{127, 0, 0, 1}}}
+	}
+
 	err = l.srv.Prepare(&conf)
 	if err != nil {
 		return fmt.Errorf("reconfiguring: %w", err)
@@ -332,6 +347,15 @@ func (l *zzC16Live) runSeeded(in *zzC16In, seed int64) (out zzC16Out, concrete s
 		return out, concrete, err
 	}
 
+	// The handshake comes first: with strict checking the TLS layer itself
+	// refuses a server name it does not accept, and the request fails.
+	overTLS := in.Proto == "tls" || in.Proto == "quic" || (in.Proto == "https" && in.Via == "sni")
+	if overTLS && l.strict && l.host != "" {
+		if _, herr := l.srv.onGetCertificate(&tls.ClientHelloInfo{ServerName: zzC16Name(in.Cli)}); herr != nil {
+			return zzC16Out{K: "err"}, concrete + " (refused in the handshake)", nil
+		}
+	}
+
 	herr := l.srv.HandleBefore(nil, pctx)
 	if herr != nil {
 		var bre *proxy.BeforeRequestError
@@ -349,6 +373,45 @@ func (l *zzC16Live) runSeeded(in *zzC16In, seed int64) (out zzC16Out, concrete s
 	}
 
 	return zzC16Out{K: "id", V: dctx.clientID}, concrete, nil
+}
+
+var (
+	zzC16CertMu sync.Mutex
+	zzC16Certs  = map[string]*tls.Certificate{}
+)
+
+// zzC16Cert returns a self-signed certificate for host and *.host.
+func zzC16Cert(host string) (cert *tls.Certificate) {
+	zzC16CertMu.Lock()
+	defer zzC16CertMu.Unlock()
+
+	if cert = zzC16Certs[host]; cert != nil {
+		return cert
+	}
+
+	key, err := ecdsa.GenerateKey(elliptic.P256(), crand.Reader)
+	if err != nil {
+		panic(err)
+	}
+
+	tmpl := &x509.Certificate{
+		SerialNumber: big.NewInt(int64(len(zzC16Certs) + 1)),
+		Subject:      pkix.Name{CommonName: host},
+		NotBefore:    time.Now().Add(-time.Hour),
+		NotAfter:     time.Now().Add(24 * time.Hour),
+		DNSNames:     []string{host, "*." + host},
+		KeyUsage:     x509.KeyUsageDigitalSignature,
+		ExtKeyUsage:  []x509.ExtKeyUsage{x509.ExtKeyUsageServerAuth},
+	}
+	der, err := x509.CreateCertificate(crand.Reader, tmpl, tmpl, &key.PublicKey, key)
+	if err != nil {
+		panic(err)
+	}
+
+	cert = &tls.Certificate{Certificate: [][]byte{der}, PrivateKey: key}
+	zzC16Certs[host] = cert
+
+	return cert
 }
 
 // zzC16ReplayHistory runs hist on a fresh server and returns the outcome of its
